@@ -542,7 +542,9 @@ class TracerMixin:
         """
         # Store results before calling the parent method i.e. to get the
         # results before any calculation
-        if trace:
+        # (a position outside the span has nothing to store: leave it to the
+        # parent method to reject the call, exactly as it does without tracing)
+        if trace and -len(self.span) <= t < len(self.span):
             self.trace_t(t, 'start', *args, trace=trace, reset=reset, **kwargs)
 
         return super().solve_t(t, *args, trace=trace, reset=reset, **kwargs)
